@@ -50,6 +50,7 @@ struct State {
     char *cur = nullptr;                     // shared progress cell (256 bytes)
     std::chrono::steady_clock::time_point t0;
     size_t max_samples = 6, max_violations = 40;
+    std::string blob;                        // free-form payload shipped from a forked child to its parent (last child wins)
 };
 inline State &S() { static State s; return s; }
 
@@ -131,6 +132,7 @@ inline void stat_max(const std::string &k, double v) { auto &m = S().stats; std:
 inline void stat_min(const std::string &k, double v) { auto &m = S().stats; std::string n = "min_" + k; auto it = m.find(n); if (it == m.end() || v < it->second) m[n] = v; }
 inline void stat_sum(const std::string &k, double v) { S().stats["sum_" + k] += v; }
 inline void info(const std::string &k, const std::string &v) { S().info[k] = v; }
+inline void blob(const std::string &b) { S().blob = b; }
 
 inline std::string jesc(const std::string &x) {
     std::string o; for (unsigned char c : x) { if (c == '"' || c == '\\') { o += '\\'; o += c; } else if (c == '\n') o += "\\n"; else if (c < 0x20 || c >= 0x7f) o += fmt("\\u%04x", c); else o += c; } return o;
@@ -170,6 +172,7 @@ inline void ship(int fd) { // child side: serialise the delta
     for (auto &v : s.violations) fprintf(f, "V %s\t%s\n", jesc(v.key).c_str(), jesc(v.msg).c_str());
     for (auto &kv : s.stats) fprintf(f, "T %s %.17g\n", kv.first.c_str(), kv.second);
     fprintf(f, "X %d\n", s.exhaustive ? 1 : 0);
+    if (!s.blob.empty()) fprintf(f, "B %s\n", jesc(s.blob).c_str());
     fclose(f);
 }
 inline void absorb(const std::string &buf) { // parent side
@@ -183,6 +186,7 @@ inline void absorb(const std::string &buf) { // parent side
         else if (t == 'V') { size_t tb = r.find('\t'); violation(r.substr(0, tb), tb == std::string::npos ? "" : r.substr(tb + 1)); }
         else if (t == 'T') { char name[256]; double v; if (sscanf(r.c_str(), "%255s %lf", name, &v) == 2) { std::string n = name; if (!n.compare(0, 4, "max_")) stat_max(n.substr(4), v); else if (!n.compare(0, 4, "min_")) stat_min(n.substr(4), v); else if (!n.compare(0, 4, "sum_")) stat_sum(n.substr(4), v); else s.stats[n] = v; } }
         else if (t == 'X') { if (r[0] == '0') s.exhaustive = false; }
+        else if (t == 'B') s.blob = r;
     }
 }
 inline Fate forked(const std::function<void()> &fn, double timeout_s = 60.0, bool quiet_stderr = true) {
@@ -193,7 +197,7 @@ inline Fate forked(const std::function<void()> &fn, double timeout_s = 60.0, boo
     if (pid == 0) {
         close(pd[0]); close(pe[0]);
         if (quiet_stderr) dup2(pe[1], 2); close(pe[1]);
-        State &s = S(); s.evaluations = s.nontrivial = 0; s.outcomes.clear(); s.samples.clear(); s.violations.clear(); s.stats.clear(); s.exhaustive = true;
+        State &s = S(); s.blob.clear(); s.evaluations = s.nontrivial = 0; s.outcomes.clear(); s.samples.clear(); s.violations.clear(); s.stats.clear(); s.exhaustive = true;
         alarm((unsigned)(timeout_s + 1));
         fn();
         ship(pd[1]);
